@@ -173,7 +173,7 @@ def record_one(inst):
     for e in ev:
         counts[e["ev"]] = counts.get(e["ev"], 0) + 1
     ret = [e for e in ev if e["ev"] in ("Return", "Raise", "Hang")]
-    summ = dict(outcome=out["outcome"], nev=len(ev), counts=counts)
+    summ = dict(outcome=out["outcome"], nev=len(ev), counts=counts, initrepair=out["run"].initrepair or "")
     if ret and ret[-1]["ev"] == "Return":
         r = ret[-1]
         summ.update(flag=r["flag"], msgc=r["msgc"], nf=r["nf"], nruns=r["nruns"], jacok=r.get("jacok"), jacerr=r.get("jacerr"))
@@ -187,8 +187,14 @@ def record_many(insts, nproc=None):
     else:
         import multiprocessing as mp
         ctx = mp.get_context("fork")
-        with ctx.Pool(nproc) as pool:
-            res = pool.map(record_one, insts, chunksize=max(1, min(8, len(insts) // (nproc * 2) or 1)))
+        if any(i.get("rng_state") is not None for i in insts):
+            # C19: every instance in a process of its own, forked from this one (which has not run a solve): the reference run starts from pristine
+            # module / class state, the 'warm' copy from the state an unrelated solve leaves behind
+            with ctx.Pool(nproc, maxtasksperchild=1) as pool:
+                res = pool.map(record_one, insts, chunksize=1)
+        else:
+            with ctx.Pool(nproc) as pool:
+                res = pool.map(record_one, insts, chunksize=max(1, min(8, len(insts) // (nproc * 2) or 1)))
     for r in res:
         if "machinery" in r:
             raise vlib.MachineryError(r["machinery"])
@@ -200,7 +206,7 @@ def _tlc_chunk(args):
     cfg_path = os.path.join(workdir, "T.cfg")
     os.makedirs(workdir, exist_ok=True)
     with open(cfg_path, "w") as f:
-        f.write('SPECIFICATION Spec\nCONSTANTS\n  Prop = "%s"\n  DefNaNCompare = %s\n  DefSwapNs = %s\nINVARIANT Report\nCHECK_DEADLOCK FALSE\n'
+        f.write('SPECIFICATION Spec\nCONSTANTS\n  Prop = "%s"\n  DefNaNCompare = %s\n  DefSwapNs = %s\n  DefStaleFactor = FALSE\nINVARIANT Report\nCHECK_DEADLOCK FALSE\n'
                 % (prop, "TRUE" if defs.get("DefNaNCompare") else "FALSE", "TRUE" if defs.get("DefSwapNs") else "FALSE"))
     res = vlib.run_tlc("DfolsTrace.tla", cfg_path, workdir, workers=1, heap="2g", env={"TRACE_FILE": chunk_path}, timeout=3000)
     return res
